@@ -62,3 +62,19 @@
   (ite (not (= (p.err r) Nil)) r
   (ite (>= (firstMissing30 (p.seen r)) 0) (mk-pres30 (PErr T_ErrMissing (vname30 (firstMissing30 (p.seen r)))) (p.seen r) (p.vals r))
   r)))))
+
+; ---- C10: when do two objects have to score alike? ----
+(define-fun sameBase30 ((a CVSS30) (b CVSS30)) Bool
+  (and (= (f30_AV a) (f30_AV b)) (= (f30_AC a) (f30_AC b)) (= (f30_PR a) (f30_PR b)) (= (f30_UI a) (f30_UI b))
+       (= (f30_S a) (f30_S b)) (= (f30_C a) (f30_C b)) (= (f30_I a) (f30_I b)) (= (f30_A a) (f30_A b))))
+; undefined temporal metrics count as the value with the same weight (E:X = H, RL:X = U, RC:X = C):
+; normNN_* maps a code to the first code of equal specification weight
+(define-fun sameTemporal30 ((a CVSS30) (b CVSS30)) Bool
+  (and (= (norm30_E (f30_E a)) (norm30_E (f30_E b))) (= (norm30_RL (f30_RL a)) (norm30_RL (f30_RL b))) (= (norm30_RC (f30_RC a)) (norm30_RC (f30_RC b)))))
+(define-fun sameBaseTemporal30 ((a CVSS30) (b CVSS30)) Bool (and (sameBase30 a b) (sameTemporal30 a b)))
+; environmental: same effective (Modified-or-base) values, same requirement weights (X = M), same temporal
+(define-fun sameEffective30 ((a CVSS30) (b CVSS30)) Bool
+  (and (= (eff30_AV a) (eff30_AV b)) (= (eff30_AC a) (eff30_AC b)) (= (eff30_PR a) (eff30_PR b)) (= (eff30_UI a) (eff30_UI b))
+       (= (eff30_S a) (eff30_S b)) (= (eff30_C a) (eff30_C b)) (= (eff30_I a) (eff30_I b)) (= (eff30_A a) (eff30_A b))
+       (= (norm30_CIAR (f30_CR a)) (norm30_CIAR (f30_CR b))) (= (norm30_CIAR (f30_IR a)) (norm30_CIAR (f30_IR b))) (= (norm30_CIAR (f30_AR a)) (norm30_CIAR (f30_AR b)))
+       (sameTemporal30 a b)))
